@@ -76,9 +76,9 @@ int cmd_any(string arg) {
 }
 
 string hx(string s) { string r; int i; r = "-"; for (i = 0; i < strlen(s); i++) r += sprintf("%02x", s[i] & 255); return r; }
-void set_terminal_type(string t) { rec("TT " + me() + " " + hx(t)); }
-void set_window_size(int w, int h) { rec("WS " + me() + " " + w + " " + h); }
-void telnet_suboption(string t) { rec("SUBOPT " + me() + " " + hx(t)); }
+void set_terminal_type(string t) { rec("TT " + me() + " " + hx(t)); hook("tt"); }
+void set_window_size(int w, int h) { rec("WS " + me() + " " + w + " " + h); hook("ws"); }
+void telnet_suboption(string t) { rec("SUBOPT " + me() + " " + hx(t)); hook("so"); }
 
 // what a snooped user sees and types is handed to the snooper through this apply - from inside add_message()
 void receive_snoop(string s) { rec("SNOOP " + me() + " " + strlen(s)); hook("snoop"); }
